@@ -14,7 +14,9 @@ RULE = ("A (exhaustive in both tiers): every starting BUILD id of 1..5 digits in
         "each followed for 3 bumps through "
         "v2version.incr('2020.<id>', 'YYYY.BUILD'). B (Hypothesis): random 6..7 digit ids and boundary ids, 3 bumps, a "
         "sample through `bumpver test`, steps with --pin-increments / --pin-date mixed in (BUILD is not an INC part). C: chains of 4,000 (quick) / 10,000 (thorough) successive bumps from 32 / 208 "
-        "starts crossing every digit-length expansion. Oracle per step: int(new) > int(old); new > old as strings from "
+        "starts crossing every digit-length expansion. D: chains of 40 / 400 bumps under six other pattern shapes (BUILD next to "
+        "TAG/NUM, MAJOR.MINOR, INC0; the zero-truncating BLD) with --tag-num / --minor / --major / --pin-increments / --pin-date mixed in, "
+        "through v2version.incr and through `bumpver test`. Oracle per step: int(new) > int(old); new > old as strings from "
         "the first bumpver-generated value on (at once if the start has >= 4 digits); no leading zero lost (len(new) >= "
         "max(4, len(old)) when int(old) >= 1000, len(new) >= 4 always). Ids "
         "that consist only of nines (>= 4 digits) are the documented maximum: excluded and counted. Non-trivial: the "
@@ -165,6 +167,93 @@ def chains(tier):
     return [{"start": s, "steps": steps} for s in starts]
 
 
+# ------------------------------------------------------------------ D: other pattern shapes and flag sequences
+
+import re as _re  # noqa: E402
+
+# (pattern, start version template, regex extracting the BUILD text, flags that may be mixed in, zero-truncating rendering?)
+SHAPES = [
+    ("YYYY.BUILD[PYTAGNUM]", "2020.%src0", r"^2020\.(\d+)(?:(?:a|b|rc|post|dev)\d+)?$", [None, "tag_num", "tag_num", "pin_increments", "pin_date"], False),
+    ("MAJOR.MINOR.BUILD[-TAG]", "1.2.%s-beta", r"^\d+\.\d+\.(\d+)(?:-\w+)?$", [None, "minor", "major", "pin_increments"], False),
+    ("vYYYY0M.BUILD[-TAG[NUM]]", "v202006.%s-rc1", r"^v\d{6}\.(\d+)(?:-[a-z]+\d*)?$", [None, "tag_num", "pin_date"], False),
+    ("YYYY.BLD", "2020.%s", r"^2020\.(\d+)$", [None, "pin_increments", "pin_date"], True),
+    ("YYYY.BLD[PYTAGNUM]", "2020.%src0", r"^2020\.(\d+)(?:(?:a|b|rc|post|dev)\d+)?$", [None, "tag_num"], True),
+    ("BUILD.INC0", "%s.0", r"^(\d+)\.\d+$", [None, "pin_increments", None], False),
+]
+
+
+def shape_domain(tier):
+    starts = ["7", "9", "98", "099", "998", "0998", "1007", "1998", "01998", "9998", "09998", "89998", "4", "0004"]
+    steps = 40 if tier == "quick" else 400
+    out = []
+    for si, shape in enumerate(SHAPES):
+        for st in starts:
+            if shape[4] and (st.startswith("0") and len(st) > 1):
+                continue  # a zero-truncating part cannot hold a padded start
+            for cli in (False, True):
+                for mix in (0, 1):
+                    out.append({"shape": si, "start": st, "steps": steps if not cli else min(steps, 60), "cli": cli, "mix": mix})
+    return out
+
+
+def check_shape(case):
+    """chains under patterns where BUILD/BLD stands next to other parts, with --tag-num / --minor / --pin-* mixed in: the BUILD
+    text of successive versions must keep growing (same step oracle; for the zero-truncating BLD the padding rule does not apply)"""
+    pattern, tmpl, rx, flagset, truncating = SHAPES[case["shape"]]
+    cur_v = tmpl % case["start"]
+    cur = case["start"]
+    n = nt = 0
+    out = ok()
+    for i in range(case["steps"]):
+        flag = flagset[(i * (1 + case["mix"])) % len(flagset)] if case["mix"] or i % 3 == 0 else None
+        kw = {"tag_num": flag == "tag_num", "minor": flag == "minor", "major": flag == "major",
+              "pin_increments": flag == "pin_increments", "pin_date": flag == "pin_date"}
+        if case["cli"]:
+            args = ["test", cur_v, pattern] + ["--" + k.replace("_", "-") for k, v in kw.items() if v]
+            if not kw["pin_date"]:
+                args += ["--date", DATE.isoformat()]
+            r = bv.run(args, today=DATE)
+            if r.crashed and "max lexical version reached" in (r.exc or ""):
+                break
+            if r.exit != 0 or r.new_version is None:
+                out.more.append(("bump-fails", {"shape": pattern}, {"args": args, "res": r.summary(300)}))
+                break
+            new_v = r.new_version
+        else:
+            bv_version.TODAY = DATE
+            logging.disable(logging.CRITICAL)
+            try:
+                new_v = v2version.incr(cur_v, pattern, maybe_date=DATE, **kw)
+            except OverflowError:
+                break
+            except Exception as ex:
+                out.more.append(("bump-fails", {"shape": pattern}, {"old": cur_v, "flags": kw, "exc": repr(ex)}))
+                break
+            finally:
+                logging.disable(logging.NOTSET)
+            if new_v is None:
+                out.more.append(("bump-fails", {"shape": pattern}, {"old": cur_v, "flags": kw, "exc": "incr returned None"}))
+                break
+        m = _re.match(rx, new_v)
+        if not m:
+            out.more.append(("not-a-number", {"shape": pattern}, {"old": cur_v, "new": new_v}))
+            break
+        new = m.group(1)
+        n += 1
+        if len(new) != len(cur) or flag:
+            nt += 1
+        bad = step_ok(cur, new, i == 0)
+        if bad and truncating and bad[0] == "leading-zero-lost":
+            bad = None  # BLD is documented as the zero-truncated form
+        if bad:
+            out.more.append((bad[0], {"shape": pattern}, dict(bad[1], old_version=cur_v, new_version=new_v, flag=flag, start=case["start"])))
+            break
+        cur, cur_v = new, new_v
+    out.n, out.nt_n, out.nt = max(n, 1), nt, True
+    out.classes = (("shape-steps", n),)
+    return out
+
+
 def selftest():
     for a, b in [("1001", "1002"), ("1999", "22000"), ("09999", "110000"), ("0999", "22000"), ("9", "1010"),
                  ("01500", "01501"), ("999", "22000"), ("00999", "22000")]:
@@ -177,6 +266,7 @@ PARTS = [
     Part("B-long-ids", check=check_b, strategy=lambda: dp.cases(build_b, size=24), n={"quick": 16000, "thorough": 400000}),
     fuzz.fuzz_part("B-coverage-guided", build_b, check_b, size=24, runs={"quick": 8000, "thorough": 160000}),
     Part("C-chains", check=check_chain, domain=chains, exhaustive=lambda tier: False),
+    Part("D-other-patterns-and-flags", check=check_shape, domain=shape_domain, exhaustive=lambda tier: False),
 ]
 
 MANIFEST = {
